@@ -106,6 +106,11 @@ tommy_inline void hashlin_grow_step(tommy_hashlin* hashlin)
 			/* because data is fully initialized in the split process */
 			segment = tommy_cast(tommy_hashlin_node**, tommy_malloc(hashlin->low_max * sizeof(tommy_hashlin_node*)));
 
+			/* out of memory: stay in stable state (nothing has been changed yet, low_max/low_mask */
+			/* already have these values there); the chains get longer and the next insert tries again */
+			if (!segment)
+				return;
+
 			/* store it adjusting the offset */
 			/* cast to ptrdiff_t to ensure to get a negative value */
 			hashlin->bucket[hashlin->bucket_bit] = &segment[-(tommy_ptrdiff_t)hashlin->low_max];
